@@ -39,3 +39,6 @@
 (declare-fun nkcong ((Array Int Int) Int Int Int (Array Int Int) Int Int Int Int) Bool)
 ; marker requesting memb_ext for two axis lists of equal length n
 (declare-fun membext ((Array Int Int) Int Int Int (Array Int Int) Int Int) Bool)
+; sdiv: Go's integer division as an opaque function for use inside quantified clauses; its
+; definition (sdiv a b) = (godiv a b) is supplied at ground terms only (lemma sdiv_def)
+(declare-fun sdiv (Int Int) Int)
